@@ -5,6 +5,7 @@ package corerad
 // timeline inside a synctest bubble.
 
 import (
+	"bufio"
 	"sort"
 	"bytes"
 	"context"
@@ -283,7 +284,7 @@ func (n *wnode) start(ns NodeSpec, info *runInfo) *daemon {
 
 	var tasks []Task
 	if !ns.OnlyScript {
-		tasks = s.BuildTasks(*cfg, d.handler)
+		tasks = s.BuildTasks(*cfg, simHTTPHandler{w: w, node: n.id, inner: d.handler})
 	}
 	var term func() bool
 	for i, t := range tasks {
@@ -655,6 +656,36 @@ func (w *world) apply(a *Action, ds []*daemon) {
 		}
 		d := ds[a.Node]
 		e.S = a.Path
+		if a.Conn && SimRealHTTP {
+			// over a connection, through the real http.Server (the handler it was
+			// given logs http.enter / http.exit itself: simHTTPHandler)
+			c := w.connect()
+			if c == nil {
+				e.Err = "connection refused"
+				w.log.Add(e)
+				return
+			}
+			e.V = 1
+			ref := w.log.Add(e)
+			go func() {
+				x := verifsim.Event{K: "http.client", Node: a.Node, S: a.Path, Ref: ref}
+				defer func() { w.log.Add(x) }()
+				defer c.Close()
+				if _, err := fmt.Fprintf(c, "GET %s HTTP/1.1\r\nHost: sim\r\nX-Sim-Ref: %d\r\nConnection: close\r\n\r\n", a.Path, ref); err != nil {
+					x.Err = "write: " + err.Error()
+					return
+				}
+				resp, err := http.ReadResponse(bufio.NewReader(c), nil)
+				if err != nil {
+					x.Err = "read: " + err.Error()
+					return
+				}
+				_, _ = io.Copy(io.Discard, resp.Body)
+				resp.Body.Close()
+				x.V = int64(resp.StatusCode)
+			}()
+			return
+		}
 		ref := w.log.Add(e)
 		go func() {
 			x := verifsim.Event{K: "http.exit", Node: a.Node, S: a.Path, Ref: ref}
@@ -1013,4 +1044,52 @@ func setFieldOfType(ptr, val any) bool {
 		}
 	}
 	return false
+}
+
+// simHTTPHandler is what the real debug HTTP server is given as its handler:
+// the daemon's handler, with the request's start and outcome logged exactly as
+// for requests handed over directly (so that the oracles do not care how a
+// request travelled). Requests are told apart by the X-Sim-Ref header.
+type simHTTPHandler struct {
+	w     *world
+	node  int
+	inner http.Handler
+}
+
+func (h simHTTPHandler) ServeHTTP(rw http.ResponseWriter, r *http.Request) {
+	ref, err := strconv.Atoi(r.Header.Get("X-Sim-Ref"))
+	if err != nil {
+		h.inner.ServeHTTP(rw, r)
+		return
+	}
+	path := r.URL.Path
+	x := verifsim.Event{K: "http.exit", Node: h.node, S: path, Ref: ref}
+	rec := httptest.NewRecorder()
+	func() {
+		defer func() {
+			if p := recover(); p != nil {
+				x.Err = fmt.Sprintf("panic: %v", p)
+			}
+		}()
+		h.w.log.Add(verifsim.Event{K: "http.enter", Node: h.node, S: path, Ref: ref})
+		h.inner.ServeHTTP(rec, r)
+	}()
+	x.V = int64(rec.Code)
+	switch {
+	case strings.HasPrefix(path, "/debug/pprof"):
+	case rec.Code >= 500:
+		b := rec.Body.Bytes()
+		if i := bytes.IndexByte(b, '\n'); i >= 0 {
+			b = b[:i]
+		}
+		x.B = b
+	default:
+		x.B = rec.Body.Bytes()
+	}
+	h.w.log.Add(x)
+	for k, v := range rec.Header() {
+		rw.Header()[k] = v
+	}
+	rw.WriteHeader(rec.Code)
+	_, _ = rw.Write(rec.Body.Bytes())
 }
